@@ -58,4 +58,12 @@ DecAcc(s, acc) == IF s = <<>> THEN acc ELSE DecAcc(Tail(s), acc * 10 + (Head(s) 
 Dec(s) == DecAcc(s, 0)
 
 Reverse(s) == [ i \in 1..Len(s) |-> s[Len(s) + 1 - i] ]
-=============================================================================
+(* decimal text of an integer *)
+RECURSIVE NatText(_)
+NatText(n) == IF n < 10 THEN <<48 + n>> ELSE NatText(n \div 10) \o <<48 + (n % 10)>>
+IntText(n) == IF n < 0 THEN <<45>> \o NatText(0 - n) ELSE NatText(n)
+HexDigit(d) == IF d < 10 THEN 48 + d ELSE 87 + d
+RECURSIVE HexText(_)
+HexText(n) == IF n < 16 THEN <<HexDigit(n)>> ELSE HexText(n \div 16) \o <<HexDigit(n % 16)>>
+
+=========================================================================
